@@ -191,7 +191,8 @@ func (t *Topic) procPresReq(fromUserID, what string, wantReply bool) string {
 		} else if cmd != "rem" {
 			// Got request from a new topic. This must be a new subscription. Record it.
 			// If it's unknown, recording it as offline.
-			t.addToPerSubs(fromUserID, onlineUpdate, cmd == "en")
+			// A contact which is not enabled is kept offline, like everywhere else.
+			t.addToPerSubs(fromUserID, onlineUpdate && cmd == "en", cmd == "en")
 
 			if cmd != "en" {
 				// If the connection is not enabled, ignore the update.
